@@ -6,6 +6,7 @@ package main
 
 import (
 	"context"
+	"encoding/hex"
 	"encoding/json"
 	"errors"
 	"fmt"
@@ -178,8 +179,13 @@ func caseConfig(r *rand.Rand) string {
 	a := harness.NewAcct(harness.KindPlain, "Wallet 1", "Account 1", 1200, 1, nil)
 	var fr bellatrix.ExecutionAddress
 	fr[0] = 9
+	// the key the documents name, the account's own key and the zero key
+	var docKey phase0.BLSPubKey
+	if b, err := hex.DecodeString("8a1d7b8dd64e0aafe7ea7b6c95065c9364cf99d38470c12ee807d55f7de1529ad29ce2c422e0b65e3d5a05c02caca249"); err == nil {
+		copy(docKey[:], b)
+	}
 	for _, acct := range []e2wtypes.Account{nil, a} {
-		for _, pk := range []phase0.BLSPubKey{{}, a.Pub48()} {
+		for _, pk := range []phase0.BLSPubKey{{}, a.Pub48(), docKey} {
 			_, _ = cfg.ProposerConfig(bg, acct, pk, fr, 30000000)
 		}
 	}
